@@ -49,7 +49,15 @@ func handlerFor(name string) func() {
 		}
 		appendEvent(map[string]any{"e": "marker", "name": name, "pid": os.Getpid(), "ppid": os.Getppid()})
 		appendEvent(map[string]any{"e": "donebegin", "pid": os.Getpid()})
-		daemon.Done()
+		if name == "verifd-B" {
+			// the "ready" callback of a server: Done() is called from a goroutine the handler started, not from the
+			// goroutine (and thread) that ran the package init functions
+			ready := make(chan struct{})
+			go func() { daemon.Done(); close(ready) }()
+			<-ready
+		} else {
+			daemon.Done()
+		}
 		appendEvent(map[string]any{"e": "doneend", "pid": os.Getpid()})
 		// a daemon keeps using its standard streams after start-up (logging): whatever they are connected to must still work
 		for b := 0; b < 4; b++ {
@@ -99,7 +107,22 @@ func caller() {
 	wg.Wait()
 }
 
-func alive(pid int) bool { return pid > 1 && syscall.Kill(pid, 0) == nil }
+// alive: the process exists and is not a zombie waiting to be reaped (a daemon killed by a signal stays in the process
+// table until its new parent collects it)
+func alive(pid int) bool {
+	if pid <= 1 || syscall.Kill(pid, 0) != nil {
+		return false
+	}
+	b, err := os.ReadFile(fmt.Sprintf("/proc/%d/stat", pid))
+	if err != nil {
+		return false
+	}
+	s := string(b)
+	if i := strings.LastIndexByte(s, ')'); i >= 0 && i+2 < len(s) {
+		return s[i+2] != 'Z' && s[i+2] != 'X'
+	}
+	return true
+}
 
 func ppidOf(pid int) int {
 	b, err := os.ReadFile(fmt.Sprintf("/proc/%d/stat", pid))
